@@ -1972,6 +1972,9 @@ class HDKey(Key):
         :return bytes:
         """
 
+        if not self.compressed:
+            # The BIP32 key identifier is the hash160 of the compressed public key
+            return hash160(self.public_compressed_byte)[:4]
         return self.hash160[:4]
 
     @staticmethod
